@@ -185,6 +185,11 @@ fn run_session(pie: &mut Pie<Trk>, scn: &Scenario, acts: &[Act], probe: bool) {
             }
           }
         }
+        Act::Set { r, v } => {
+          // only file resources can change while a session borrows the Pie instance
+          let (ty, num) = (scn.rtype[(*r - 1) as usize], scn.rnum[(*r - 1) as usize]);
+          if ty == 3 { file_set(num, *v); emit(json!({"ev":"ext_set","r":r,"v":v})); }
+        }
         Act::Bu { changed } => {
           emit(json!({"ev":"bu_begin"}));
           let r = catch_unwind(AssertUnwindSafe(|| {
